@@ -519,6 +519,17 @@ class DataFileManager:
             str(f["name"]) for f in iceberg_schema.fields if f.get("required", False)
         }
 
+        # pyarrow converts Python floats into integer columns by truncation and
+        # out-of-range floats into float32 columns as +-inf, both silently. A value
+        # the declared type cannot represent must be rejected, not altered.
+        integer_fields = {
+            str(f["name"]) for f in iceberg_schema.fields if f.get("type") in ("int", "long")
+        }
+        float32_fields = {
+            str(f["name"]) for f in iceberg_schema.fields if f.get("type") == "float"
+        }
+        float32_max = 3.4028235677973366e38
+
         for i, record in enumerate(records):
             unknown = {str(k) for k in record.keys()} - allowed
             if unknown:
@@ -530,6 +541,28 @@ class DataFileManager:
                 if record.get(name) is None:
                     raise ValueError(
                         f"Record {i} is missing required field '{name}' (or it is None)"
+                    )
+            for name in integer_fields:
+                value = record.get(name)
+                if isinstance(value, float) and (
+                    value != value or value in (float("inf"), float("-inf")) or value != int(value)
+                ):
+                    raise ValueError(
+                        f"Record {i}: value {value!r} for integer field '{name}' is not an "
+                        f"integer; refusing to truncate it silently"
+                    )
+            for name in float32_fields:
+                value = record.get(name)
+                if (
+                    isinstance(value, (int, float))
+                    and not isinstance(value, bool)
+                    and value == value
+                    and value not in (float("inf"), float("-inf"))
+                    and abs(value) > float32_max
+                ):
+                    raise ValueError(
+                        f"Record {i}: value {value!r} for 32-bit float field '{name}' is out of "
+                        f"range; refusing to store it as infinity"
                     )
 
     def write_data_file(
